@@ -246,10 +246,20 @@ def schedule_level(ctx):
             if names:
                 routes += [("stamped spec, plain interpreter, run-time operands", "(arch_spec=S)", True, True),
                            ("run-time spec interpreter, run-time operands", "", False, True)]
+            # the calls sit in a subroutine compiled earlier WITHOUT a spec (its reversals are folded into constants); it is then reached
+            # from a kernel compiled with the spec (the injection pass copies and re-targets it), with and without the trailing fold
+            wrap = lambda src, d: (src.format(dec="").replace("def main", "def sub", 1) + "\n@move" + d + "\ndef main" + (sig if src is psrc else "()") + ":\n    sub(" +
+                                   (", ".join(names) if src is psrc else "") + ")\n")
+            routes += [("subroutine compiled without a spec, reached from a kernel compiled with arch_spec", "(arch_spec=S)", True, "wrap"),
+                       ("subroutine compiled without a spec, reached from a kernel compiled with arch_spec, fold=False", "(arch_spec=S, fold=False)", True, "wrap")]
             texts = {}
             for rname, dec, plain, byparam in routes:
                 try:
-                    m = kernels.define((psrc if byparam else msrc).format(dec=dec), k=ns["k"], S=S)["main"]
+                    if byparam == "wrap":
+                        byparam = bool(names)
+                        m = kernels.define(wrap(psrc if byparam else msrc, dec), k=ns["k"], S=S)["main"]
+                    else:
+                        m = kernels.define((psrc if byparam else msrc).format(dec=dec), k=ns["k"], S=S)["main"]
                     st, evs, extra = events.run_events(m, tuple(args) if byparam else (), S, plain=plain)
                 except Exception as e:
                     st, evs, extra = "err", [], f"definition failed: {type(e).__name__}: {e}"
